@@ -328,6 +328,8 @@ func (comp) Extra(prop string, tier string, seed int64, scratch string) *core.Ex
 			steps = []func(*collector, int64, int){phaseFifo}
 		case "C05": // the two indexes and the counters at quiescent instants of concurrent histories
 			steps = []func(*collector, int64, int){phaseTxLimits, phaseTxMixed, phaseTxEvict, phaseTxAddOnly, phaseTxClear, phaseTxAddClear, phaseConcurrentMap}
+		case "C01", "C02": // selections concurrent with insertions and removals: every result judged by the C01/C02 monitors
+			steps = []func(*collector, int64, int){phaseTxAddOnly, phaseTxMixed, phaseTxLimits}
 		case "C16": // the storage unit after concurrent use: cache and persister agree at every quiescent instant
 			steps = []func(*collector, int64, int){phaseStorageUnit}
 		}
